@@ -91,3 +91,29 @@ pub fn run(args: &[String]) -> i32 {
     let _ = std::fs::remove_dir_all(&dir);
     0
 }
+
+/// `locks-scenarios`: the directed schedules above as child processes, reported through the sink (C15 corpus run).
+pub fn scenarios(out: &mut Sink) {
+    let exe = std::env::current_exe().unwrap();
+    let pid = std::process::id();
+    for mode in ["control", "nested", "nomt-read"] {
+        let dir = format!("/dev/shm/nomt-verif-db-{pid}-locks-{mode}");
+        let st = std::process::Command::new(&exe)
+            .args(["locks-nested", "--dir", &dir, "--mode", mode, "--wait-ms", "2500"])
+            .stdout(std::process::Stdio::null())
+            .stderr(std::process::Stdio::null())
+            .status();
+        let _ = std::fs::remove_dir_all(&dir);
+        out.mark_case(format!("locks scenario {mode}"));
+        out.count(&format!("locks_scenario_{mode}"));
+        match st.ok().and_then(|s| s.code()) {
+            Some(0) => out.nontrivial(&format!("locks {mode} finished")),
+            Some(42) if mode == "control" => out.fail("C15 DEADLOCK in the disciplined control schedule (session dropped before the next begin_session while a blocking commit waits)".into()),
+            Some(42) => out.fail(format!(
+                "C15 DEADLOCK nested-session: a thread that owns a live Session blocks forever in its next read acquisition of the access lock ({}) while another thread's blocking commit waits for that session (parking_lot read() does not pass a waiting writer)",
+                if mode == "nested" { "begin_session" } else { "Nomt::read" }
+            )),
+            other => out.fail(format!("C15 locks scenario {mode}: child ended with {other:?}")),
+        }
+    }
+}
